@@ -502,7 +502,11 @@ def _compare_kernels(chk, label, stem, prefix, ufd, jitres, so_path, st, rng, pa
                 _call(jmod.ffi, getattr(jf.form_integrals[k], f"tabulate_tensor_{st}"), st, A2, w, c, x)
                 ncmp += 1
                 chk.case("kernel-compare", key=f"{label}:{n}:{k}")
-                if A1.tobytes() != A2.tobytes() or not np.any(A1 != 0):
+                if A1.tobytes() != A2.tobytes() and np.all(np.isfinite(A1)) and np.any(A1 != 0) and \
+                        float(np.abs(A1 - A2).max()) <= 1e-12 * max(1.0, float(np.abs(A2).max())):
+                    # same tensors up to rounding (another compiler / flag set than the JIT build): not a violation
+                    chk.notes["cli_vs_jit_not_bitwise"] = chk.notes.get("cli_vs_jit_not_bitwise", 0) + 1
+                elif A1.tobytes() != A2.tobytes() or not np.any(A1 != 0):
                     bad = np.flatnonzero(A1 != A2)[:5].tolist()
                     chk.violation(key=f"cli:kernel-differs:{label}", what="kernel of the ffcx CLI output and of the JIT path give different tensors (or only zeros)",
                                   payload=dict(payload, alias=n, integral=k, first_bad=bad, nonzero=bool(np.any(A1 != 0))))
